@@ -195,7 +195,23 @@ func fieldDesc(a *ssa.FieldAddr) string {
 // is only stored to / loaded from directly (the go/ssa spill of named results
 // and defer-protected locals). Falls back to all stores otherwise.
 func (s *slicer) allocLoad(ld *ssa.UnOp, a *ssa.Alloc) {
-	simple := true
+	vals, zero, simple := reachingStores(ld, a)
+	if !simple {
+		s.allocStores(a)
+		return
+	}
+	for _, v := range vals {
+		s.walk(v, -1)
+	}
+	if zero {
+		s.leaf(a, LeafConst, "zero value local")
+	}
+}
+
+// reachingStores computes the values that may be in local `a` when `ld` loads
+// it, provided a's address is only stored to / loaded from directly ("simple").
+func reachingStores(ld *ssa.UnOp, a *ssa.Alloc) (vals []ssa.Value, zero bool, simple bool) {
+	simple = true
 	for _, r := range referrersOf(a) {
 		switch u := r.(type) {
 		case *ssa.Store:
@@ -208,8 +224,7 @@ func (s *slicer) allocLoad(ld *ssa.UnOp, a *ssa.Alloc) {
 		}
 	}
 	if !simple {
-		s.allocStores(a)
-		return
+		return nil, false, false
 	}
 	lastStoreBefore := func(b *ssa.BasicBlock, limit int) *ssa.Store {
 		for i := limit - 1; i >= 0; i-- {
@@ -220,12 +235,11 @@ func (s *slicer) allocLoad(ld *ssa.UnOp, a *ssa.Alloc) {
 		return nil
 	}
 	if st := lastStoreBefore(ld.Block(), instrIndex(ld)); st != nil {
-		s.walk(st.Val, -1)
-		return
+		return []ssa.Value{st.Val}, false, true
 	}
 	seen := map[*ssa.BasicBlock]bool{}
 	work := append([]*ssa.BasicBlock(nil), ld.Block().Preds...)
-	zero := len(ld.Block().Preds) == 0
+	zero = len(ld.Block().Preds) == 0
 	for len(work) > 0 {
 		b := work[len(work)-1]
 		work = work[:len(work)-1]
@@ -234,7 +248,7 @@ func (s *slicer) allocLoad(ld *ssa.UnOp, a *ssa.Alloc) {
 		}
 		seen[b] = true
 		if st := lastStoreBefore(b, len(b.Instrs)); st != nil {
-			s.walk(st.Val, -1)
+			vals = append(vals, st.Val)
 			continue
 		}
 		if len(b.Preds) == 0 {
@@ -242,9 +256,38 @@ func (s *slicer) allocLoad(ld *ssa.UnOp, a *ssa.Alloc) {
 		}
 		work = append(work, b.Preds...)
 	}
-	if zero {
-		s.leaf(a, LeafConst, "zero value local")
+	return vals, zero, true
+}
+
+// resolveLoad strips conversions and, for loads of simple locals, returns the
+// set of reaching stored values; otherwise {v}.
+func resolveLoad(v ssa.Value) map[ssa.Value]bool {
+	out := map[ssa.Value]bool{}
+	for {
+		if cv, ok := v.(*ssa.Convert); ok {
+			v = cv.X
+			continue
+		}
+		if ct, ok := v.(*ssa.ChangeType); ok {
+			v = ct.X
+			continue
+		}
+		break
 	}
+	if u, ok := v.(*ssa.UnOp); ok && u.Op == token.MUL {
+		if a, ok := u.X.(*ssa.Alloc); ok {
+			if vals, zero, simple := reachingStores(u, a); simple && !zero {
+				for _, x := range vals {
+					for y := range resolveLoad(x) {
+						out[y] = true
+					}
+				}
+				return out
+			}
+		}
+	}
+	out[v] = true
+	return out
 }
 
 // allocStores follows every value stored into a local allocation (directly or
@@ -542,4 +585,132 @@ func (p *Prog) descValue(v ssa.Value) string {
 		return "<nil>"
 	}
 	return v.String()
+}
+
+// reachingStoresX is reachingStores that also tolerates read-only field access
+// (FieldAddr whose referrers are loads only): the local holds whole-struct
+// values, as go/ssa does for struct variables whose fields are read.
+func reachingStoresX(at ssa.Instruction, a *ssa.Alloc) (vals []ssa.Value, zero bool, simple bool) {
+	simple = true
+	var readOnlyAddr func(addr ssa.Value) bool
+	readOnlyAddr = func(addr ssa.Value) bool {
+		for _, r := range referrersOf(addr) {
+			switch u := r.(type) {
+			case *ssa.UnOp, *ssa.DebugRef:
+			case *ssa.FieldAddr:
+				if !readOnlyAddr(u) {
+					return false
+				}
+			default:
+				return false
+			}
+		}
+		return true
+	}
+	for _, r := range referrersOf(a) {
+		switch u := r.(type) {
+		case *ssa.Store:
+			if u.Addr != ssa.Value(a) {
+				simple = false
+			}
+		case *ssa.UnOp, *ssa.DebugRef:
+		case *ssa.FieldAddr:
+			if !readOnlyAddr(u) {
+				simple = false
+			}
+		default:
+			simple = false
+		}
+	}
+	if !simple {
+		return nil, false, false
+	}
+	lastStoreBefore := func(b *ssa.BasicBlock, limit int) *ssa.Store {
+		for i := limit - 1; i >= 0; i-- {
+			if st, ok := b.Instrs[i].(*ssa.Store); ok && st.Addr == ssa.Value(a) {
+				return st
+			}
+		}
+		return nil
+	}
+	if st := lastStoreBefore(at.Block(), instrIndex(at)); st != nil {
+		return []ssa.Value{st.Val}, false, true
+	}
+	seen := map[*ssa.BasicBlock]bool{}
+	work := append([]*ssa.BasicBlock(nil), at.Block().Preds...)
+	zero = len(at.Block().Preds) == 0
+	for len(work) > 0 {
+		b := work[len(work)-1]
+		work = work[:len(work)-1]
+		if seen[b] {
+			continue
+		}
+		seen[b] = true
+		if st := lastStoreBefore(b, len(b.Instrs)); st != nil {
+			dup := false
+			for _, v := range vals {
+				if v == st.Val {
+					dup = true
+				}
+			}
+			if !dup {
+				vals = append(vals, st.Val)
+			}
+			continue
+		}
+		if len(b.Preds) == 0 {
+			zero = true
+		}
+		work = append(work, b.Preds...)
+	}
+	return vals, zero, true
+}
+
+// structValue resolves a struct-typed value to what it "is": a load of a
+// struct local resolves to the single whole-struct value stored in it (following
+// chains), anything else to itself.
+func structValue(v ssa.Value) ssa.Value {
+	for i := 0; i < 8; i++ {
+		u, ok := v.(*ssa.UnOp)
+		if !ok || u.Op != token.MUL {
+			return v
+		}
+		a, ok := u.X.(*ssa.Alloc)
+		if !ok {
+			return v
+		}
+		vals, zero, simple := reachingStoresX(u, a)
+		if !simple || zero || len(vals) != 1 {
+			return v
+		}
+		v = vals[0]
+	}
+	return v
+}
+
+// fieldRead recognises a read of struct field: Field(x) or *(&x.f). Returns the
+// resolved struct value (see structValue) and the field name.
+func fieldRead(v ssa.Value) (base ssa.Value, field string, ok bool) {
+	switch x := v.(type) {
+	case *ssa.Field:
+		return structValue(x.X), fieldName(x.X.Type(), x.Field), true
+	case *ssa.UnOp:
+		if x.Op != token.MUL {
+			return nil, "", false
+		}
+		fa, isFA := x.X.(*ssa.FieldAddr)
+		if !isFA {
+			return nil, "", false
+		}
+		name := fieldName(fa.X.Type(), fa.Field)
+		if a, isA := fa.X.(*ssa.Alloc); isA {
+			vals, zero, simple := reachingStoresX(x, a)
+			if simple && !zero && len(vals) == 1 {
+				return structValue(vals[0]), name, true
+			}
+			return a, name, true
+		}
+		return fa.X, name, true
+	}
+	return nil, "", false
 }
